@@ -1516,8 +1516,29 @@ def rule_widthtable(repo):
     ppts = _run_pair_points(repo, pw, only=('cmp',))
     if all(p['exc'] is not None or pw.nwidth(p['node']).form == {1: 1} for p in ppts):
         raise AnalysisError("R-C10-widthtable: the embedded comparison typed like its operand is not flagged")
+    # constant loop bounds: a negative start / end cannot be reproduced by the unsigned loop the back-ends emit
+    wm, wq, wl_ = _where(w, 'visit_For')
+    for (a, b_, c), legal in (((0, 4, 1), True), ((3, 0, -1), True), ((0, 0, 1), True), ((3, -1, -1), False), ((3, -2, -1), False),
+                              ((-1, 4, 1), False), ((-2, -1, 1), False), ((0, 4, 0), False)):
+        ck = w.checker()
+        g = ck.attrs['rtlir_getter']
+
+        def cnum2(v):
+            nd = w.new(w.bir, 'Number', v)
+            nd.attrs.update(Type=g.get_rtlir(v), _value=v, _is_explicit=False)
+            return nd
+        node = w.new(w.bir, 'For', w.new(w.bir, 'LoopVarDecl', 'i'), cnum2(a), cnum2(b_), cnum2(c), [w.new(w.bir, 'LoopVar', 'i')])
+        exc = w.run(ck, 'visit_For', node)
+        cons = f"visit_For range({a}, {b_}, {c}): {'accepted' if legal else 'rejected (negative bound / zero step)'}"
+        if legal and exc is not None:
+            r.bad(wm, wq, cons, f"a loop over non-negative constant bounds is {'rejected' if exc == 'PyMTLTypeError' else 'ending with ' + exc}", wl_)
+        elif not legal and exc != 'PyMTLTypeError':
+            r.bad(wm, wq, cons, f"range({a}, {b_}, {c}) is {'accepted' if exc is None else 'ending with ' + exc}: the loop variable is an unsigned "
+                  f"value, the emitted comparison against a negative bound never / always holds while python iterates {len(range(a, b_, c)) if c else 0} times", wl_)
+        else:
+            r.ok(wm, wq, cons)
     r.evaluations = w.evals
-    r.require_floor(80)
+    r.require_floor(88)
     return r
 
 
@@ -1786,7 +1807,99 @@ def rule_constcache_dep(repo):
     return tr_util.rule_constcache(repo, BACKEND)
 
 
-RULES = [rule_intlog, rule_litwidth, rule_idxwidth, rule_optable, rule_handlers, rule_mismatch, rule_widthtable, rule_cache, rule_ir_eq, rule_slice_step,
+# ---------------------------------------------------------------------------
+def rule_dtype(repo):
+    """two results: widths of the rdt data types, element type of constant lists"""
+    w = world(repo)
+    S = lambda v, name: SymInt(v, sym=name)
+    r = RuleResult('R-C10-dtype-length', "get_length of every RTLIR data type is the simulator's nbits of the same shape: Vector n, "
+                                         "PackedArray prod(dims)*element, Struct sum(fields), Bool 1")
+    m = w.repo.mod(RDT)
+
+    def length(dt):
+        w.evals += 1
+        try:
+            return SymInt.of(w.I.call(w.I.getattr(dt, 'get_length')))
+        except Raised as e:
+            return e.what
+    def judge(q, cons, dt, want, shape):
+        got = length(dt)
+        if isinstance(got, SymInt) and got.form == want:
+            r.ok(m, q, cons)
+        else:
+            r.bad(m, q, cons, f"{shape}: get_length gives {got.v if isinstance(got, SymInt) else 'exception ' + str(got)} "
+                  f"(form {getattr(got, 'form', None)}), the simulator's value has the width {want}: every width the checker derives "
+                  f"for such a signal / field differs from the simulated width")
+    for n in (1, 7, 32):
+        judge('Vector.get_length', f"Vector of n = {n} bits", w.vec(S(n, 'n')), {'n': 1}, f"Bits{n}")
+    judge('Bool.get_length', "Bool", w.new(w.rdt, 'Bool'), {1: 1}, "comparison result")
+    for dims in ((3,), (2, 2), (2, 3), (3, 2, 2), (1, 5)):
+        prod = 1
+        for d in dims:
+            prod *= d
+        judge('PackedArray.get_length', f"PackedArray{list(dims)} of w-bit vectors", w.new(w.rdt, 'PackedArray', list(dims), w.vec(S(4, 'w'))),
+              {'w': prod}, f"a field [[Bits4]*...] of shape {dims} has {prod} elements")
+    inner = w.new(w.rdt, 'Struct', w.I.get_class(BIR, 'Number'), {'p': w.vec(S(3, 'fp')), 'q': w.vec(S(5, 'fq'))})
+    st = w.new(w.rdt, 'Struct', w.I.get_class(BIR, 'Base'),
+               {'a': w.vec(S(8, 'fa')), 'arr': w.new(w.rdt, 'PackedArray', [2, 3], w.vec(S(4, 'w'))), 'in_': inner, 'b': w.vec(S(1, 'fb'))})
+    judge('Struct.get_length', "Struct {vector, PackedArray[2,3], nested struct, vector}", st,
+          {'fa': 1, 'w': 6, 'fp': 1, 'fq': 1, 'fb': 1}, "bitstruct with an array field and a nested struct")
+    r.evaluations = w.evals
+    r.require_floor(10)
+
+    r2 = RuleResult('R-C10-arraytype', "a constant list is typed with an element type that holds every element (or is rejected): "
+                                       "RTLIRGetter._handle_Array never types [1, 300] by its first element")
+    gm = w.repo.mod(RT)
+    gcls = w.I.get_class(RT, 'RTLIRGetter')
+    cases = (('[1, 300]', lambda: [S(1, 'e0'), S(300, 'e1')]), ('[300, 1]', lambda: [S(300, 'e0'), S(1, 'e1')]),
+             ('[3, 3]', lambda: [S(3, 'e0'), S(3, 'e1')]), ('[5, 7, 4]', lambda: [S(5, 'e0'), S(7, 'e1'), S(4, 'e2')]),
+             ('[1, 2, 300, 7]', lambda: [S(1, 'e0'), S(2, 'e1'), S(300, 'e2'), S(7, 'e3')]),
+             ('[1, 1, 300]', lambda: [S(1, 'e0'), S(1, 'e1'), S(300, 'e2')]),
+             ('[3, 2, 3, 300]', lambda: [S(3, 'e0'), S(2, 'e1'), S(3, 'e2'), S(300, 'e3')]),
+             ('[Bits8(1), Bits8(2)]', lambda: [w.bits_obj(S(8, 'wb'), 1), w.bits_obj(S(8, 'wb'), 2)]),
+             ('[Bits8(1), 5]', lambda: [w.bits_obj(S(8, 'wb'), 1), S(5, 'e1')]),
+             ('[5, Bits8(1)]', lambda: [S(5, 'e0'), w.bits_obj(S(8, 'wb'), 1)]),
+             ('[Bits8(1), Bits4(1)]', lambda: [w.bits_obj(S(8, 'wb'), 1), w.bits_obj(S(4, 'wc'), 1)]))
+    for cached in (True, False):
+        for txt, mk in cases:
+            lst = mk()
+            cons = f"get_rtlir({txt}) [{'cached' if cached else 'uncached'} getter]"
+            try:
+                w.evals += 1
+                g = w.I.call(gcls, [], {'cache': cached})
+                T = w.I.call(w.I.getattr(g, 'get_rtlir'), [lst])
+            except Raised as e:
+                if e.what in ('RTLIRConversionError',):
+                    uniform = len({(type(x).__name__, lit_ref(x.v) if isinstance(x, SymInt) else x.attrs['_nbits'].v) for x in lst}) == 1
+                    if uniform:
+                        r2.bad(gm, 'RTLIRGetter._handle_Array', cons, f"a list of elements of one type is rejected ({e.what})")
+                    else:
+                        r2.ok(gm, 'RTLIRGetter._handle_Array', cons, note="rejected")
+                else:
+                    r2.bad(gm, 'RTLIRGetter._handle_Array', cons, f"ends with {e.what}")
+                continue
+            if not isinstance(T, AInst) or T.cls.name != 'Array':
+                r2.bad(gm, 'RTLIRGetter._handle_Array', cons, f"does not yield an Array type ({T!r})")
+                continue
+            sub = w.I.call(w.I.getattr(T, 'get_sub_type'))
+            ew = w.width(sub).v
+            need = max(lit_ref(x.v) if isinstance(x, SymInt) else x.attrs['_nbits'].v for x in lst)
+            kinds = {isinstance(x, SymInt) for x in lst}
+            if ew < need:
+                r2.bad(gm, 'RTLIRGetter._handle_Array', cons, f"the list is typed with {ew}-bit elements but one element needs {need} bits: "
+                       f"`s.LUT[s.sel]` is typed {ew} bit(s), the simulator yields values up to {need} bits")
+            elif len(kinds) > 1:
+                r2.bad(gm, 'RTLIRGetter._handle_Array', cons, "a list mixing python ints and Bits objects gets one element type: "
+                       "explicitness of the elements is lost")
+            else:
+                r2.ok(gm, 'RTLIRGetter._handle_Array', cons, note=f"{ew}-bit elements")
+    w.sync()
+    r2.evaluations = w.evals
+    r2.require_floor(20)
+    return [r, r2]
+
+
+RULES = [rule_intlog, rule_litwidth, rule_idxwidth, rule_optable, rule_handlers, rule_mismatch, rule_widthtable, rule_cache, rule_ir_eq, rule_slice_step, rule_dtype,
          rule_constcache_dep, rule_sim_accepts,
          rule_sim_helpers]
 
@@ -1874,6 +1987,17 @@ MUTANTS = [
        "      upper = node.upper\n      if isinstance( upper, bir.BinOp ) and isinstance( upper.op, bir.Add ) and \\\n         hasattr( upper.right, '_value' ):\n        slice_size = upper.right._value\n"
        "        node.Type = rt.NetWire( rdt.Vector( slice_size ) )\n        node._is_explicit = True\n        # Add new fields that might help translation\n        node.size = slice_size\n        node.base = node.lower\n      else:\n", 'R-C10-widthtable'),
     _m('part-select-any-operator', TC1, "        assert isinstance( node.upper.op, bir.Add )\n", "", 'R-C10-widthtable'),
+    # fifth round
+    _m('packed-array-length-sum-of-dims', RDT, "return int(s.sub_dtype.get_length()*reduce( lambda p,x: p*x, s.dim_sizes, 1 ))", "return int(s.sub_dtype.get_length()*sum( s.dim_sizes ))", 'R-C10-dtype-length'),
+    _m('packed-array-length-first-dim-only', RDT, "return int(s.sub_dtype.get_length()*reduce( lambda p,x: p*x, s.dim_sizes, 1 ))", "return int(s.sub_dtype.get_length()*s.dim_sizes[0])", 'R-C10-dtype-length'),
+    _m('struct-length-widest-field', RDT, "    return int(sum( d.get_length() for d in s.properties.values() ))", "    return int(max( d.get_length() for d in s.properties.values() ))", 'R-C10-dtype-length'),
+    _m('vector-length-off-by-one', RDT, "  def get_length( s ):\n    return int(s.nbits)\n", "  def get_length( s ):\n    return int(s.nbits) - 1\n", 'R-C10'),
+    _m('int-list-typed-by-first-element', RT, "    for x in obj[1:]:\n      assert self.get_rtlir(x) == ref_type,", "    for x in obj[1:]:\n      if type(x) is int and type(obj[0]) is int: continue\n      assert self.get_rtlir(x) == ref_type,", 'R-C10-arraytype'),
+    _m('list-elements-compared-with-themselves', RT, "      assert self.get_rtlir(x) == ref_type,", "      assert self.get_rtlir(x) == self.get_rtlir(x),", 'R-C10-arraytype'),
+    _m('list-only-second-element-checked', RT, "    for x in obj[1:]:\n      assert self.get_rtlir(x) == ref_type,", "    for x in obj[1:2]:\n      assert self.get_rtlir(x) == ref_type,", 'R-C10-arraytype'),
+    _m('for-end-minus-one-accepted', TC2, "      if node.end._value < 0:", "      if node.end._value < -1:", 'R-C10-widthtable'),
+    _m('for-start-negative-accepted', TC2, "      if node.start._value < 0:", "      if node.start._value < -1:", 'R-C10-widthtable'),
+    _m('for-zero-step-accepted', TC2, "      if step == 0:\n        raise PyMTLTypeError( s.blk, node.ast,\n          'the step of for-loop cannot be zero!' )", "      if step is None:\n        raise PyMTLTypeError( s.blk, node.ast,\n          'the step of for-loop cannot be zero!' )", 'R-C10-widthtable'),
     # literal width
     _m('float-log-reintroduced-L1', TC1, "      return value.bit_length()\n", "      return math.ceil(math.log2(value+1))\n", 'R-intlog'),
     _m('float-log-reintroduced-rdt', RDT, "    return value.bit_length()\n", "    return ceil(log2(value+1))\n", 'R-C10-litwidth'),
@@ -1952,6 +2076,10 @@ MUTANTS = [
 ]
 
 EQUIV = [
+    _m('packed-array-length-math-prod-loop', RDT, "return int(s.sub_dtype.get_length()*reduce( lambda p,x: p*x, s.dim_sizes, 1 ))", "return int(reduce( lambda p,x: p*x, s.dim_sizes, s.sub_dtype.get_length() ))"),
+    _m('struct-length-as-list-sum', RDT, "    return int(sum( d.get_length() for d in s.properties.values() ))", "    return int(sum( [ s.properties[k].get_length() for k in s.properties ] ))"),
+    _m('for-end-test-mirrored', TC2, "      if node.end._value < 0:", "      if 0 > node.end._value:"),
+    _m('list-type-check-as-ne', RT, "      assert self.get_rtlir(x) == ref_type,", "      assert not (self.get_rtlir(x) != ref_type),"),
     _m('part-select-equality-mirrored', TC1, "        assert node.lower == node.upper.left\n", "        assert node.upper.left == node.lower\n"),
     _m('ir-index-eq-reordered', BIR, "isinstance(other, Index) and s.value == other.value and s.idx == other.idx", "isinstance(other, Index) and other.idx == s.idx and other.value == s.value"),
     _m('tmpvar-nonetype-test-as-not-eq', TC2, "      if lhs_type != rt.NoneType() and lhs_type.get_dtype() != rhs_type.get_dtype():", "      if not (lhs_type == rt.NoneType()) and lhs_type.get_dtype() != rhs_type.get_dtype():"),
